@@ -8,6 +8,7 @@
 From Coq Require Import List Arith Bool ZArith Ring.
 From PV Require Import Base.Index Base.Sum Np.Array Model.Sparse Model.Repr Model.Harness Model.C03Ops Model.C03Gen Model.C03More Model.C03Chk
                        Model.C03Kr Model.C03W5 Proofs.C03Lemmas Proofs.C03Kr Proofs.C03W5.
+From PV Require Import Np.NpZ Gen.GenUtils Model.C03Gen2 Model.C03Src Model.C03Ord0 Proofs.C03Ord0 Proofs.C03Ord0b.
 Import ListNotations.
 
 Section C03W5.
@@ -28,7 +29,7 @@ Proof. exact (impl_mul_k_filtered_rows V v0 v1 vadd vmul vsub vopp isz Vring). Q
 Theorem C03_kruskal_empty_operand : forall (X : Type) (dv : V -> V -> X) (s : shape) (K : ktensor V),
   impl_mul_k_filtered v0 vadd vmul isz (mkSp s [] []) K = mkSp s [] [] /\
   impl_div_k v0 v1 vadd vmul dv (mkSp s [] []) K = mkSp s [] [].
-Proof. intros X dv s K. split; [exact (impl_mul_k_filtered_empty V v0 vadd vmul isz s K)|exact (impl_div_k_empty V v0 v1 vadd vmul dv s K)]. Qed.
+Proof. exact (@kruskal_empty_operand V v0 v1 vadd vmul isz). Qed.
 End C03W5.
 
 Local Open Scope Z_scope.
@@ -56,6 +57,20 @@ Theorem C03_div_dense_exact_iff : forall (A : sparse Z) (T : dense Z), wf_sp zis
   forall i, (xden_sp (zdiv_dense A T) i = xdivz (zden_sp A i) (zden T i) <-> ~ (zden_sp A i = 0 /\ zden T i = 0)).
 Proof. exact zdiv_dense_exact_iff. Qed.
 
+(* (c) more order-0 paths (pyttb's shape () = the empty tensor; E0 its only sparse value, D0 = tensor()): the paths that ENUMERATE the
+   shape through the generated tt_setdiff_rows — S != c, S == c (c = 0 goes through logical_not), S / c with the NaN fill at c = 0 — and
+   the gather paths with the dense operand (S * T, logical_and) return the empty container, for every scalar c; the generated helper
+   selects nothing from numpy's one zero-width row and from pyttb's empty enumeration alike.  Still not claimed for order 0: the dense
+   RESULTS (S + c, S - T, ... go through full(), one cell in numpy's reading) and == / < <= > >= with the dense operand (raise: C03-Z0) *)
+Theorem C03_order0_enumerating :
+  gen_diff (allsubs []) [] = Ok [] /\ gen_diff (allsubsP []) [] = Ok [] /\
+  (forall c, impl_ne_scalar_gen 1 Z.eqb zisz E0 c = Ok E0) /\
+  (forall c, impl_eq_scalar_src zisz 1 Z.eqb E0 c = Ok E0) /\
+  (forall c, impl_div_scalar_gen zisz xdivz XNaN E0 c = Ok EX0) /\
+  impl_mul_dense 0 zisz Z.mul E0 D0 = E0 /\ impl_and_dense 0 zisz 1 E0 D0 = E0.
+Proof. exact order0_enumerating. Qed.
+
+Print Assumptions C03_order0_enumerating.
 Print Assumptions C03_mul_kruskal_filtered_rows.
 Print Assumptions C03_kruskal_empty_operand.
 Print Assumptions C03_mul_kruskal_filtered_Z.
